@@ -853,10 +853,13 @@ impl BistellarFlipKind {
     }
 
     /// Construct the inverse flip kind (k' = D + 2 - k).
+    ///
+    /// For a kind that does not exist in its dimension (`k > D + 2`) or an absurdly large
+    /// dimension the arithmetic saturates instead of overflowing.
     #[must_use]
     pub const fn inverse(self) -> Self {
         Self {
-            k: self.d + 2 - self.k,
+            k: self.d.saturating_add(2).saturating_sub(self.k),
             d: self.d,
         }
     }
